@@ -311,20 +311,49 @@ def run(chk):
         S = summary.Summaries(p)
         N = normal.Normalizer(p, S)
         rws = normal.rows(S, ca, N)
-        is_find = lambda x: (is_call(x, "Iterator::find") or is_call(x, "slice::Iter::find")) and x[2][0] == ("param", 2)
+        # "the element": found by Iterator::find over the request list, or yielded by next() of a loop over it
+        def list_iter(x):
+            x = flow.iterator_source(x)
+            while isinstance(x, tuple) and len(x) == 4 and x[0] == "call" and x[2] and (names.is_(x[1], "IntoIterator::into_iter") or x[1].endswith("::iter")):
+                x = x[2][0]
+            return x == ("param", 2)
+        is_find = lambda x: (is_call(x, "Iterator::find") or is_call(x, "slice::Iter::find")) and list_iter(x[2][0])
+        is_next = lambda x: is_call(x, "Iterator::next") and list_iter(x[2][0])
+        is_elem = lambda x: is_find(x) or is_next(x)
         bad = [core.callee_of(t) for b in p.nested(ca.path) for bb3, t in b.calls() if names.call_is(t, *REV)]
         oks = [o for o in rws if o.variant[:1] == ("Ok",)]
         errs = [o for o in rws if o.variant[:1] == ("Err",)]
+
+        def membership(t, elem):
+            """t tests `elem.alg ∈ self.algs`: contains(algs, alg) or any(algs, |s| s == alg)"""
+            has_algs = lambda y: has(y, lambda z: isinstance(z, tuple) and len(z) == 3 and z[0] == "field" and z[2] == "algs")
+            alg = ("field", ("payload", elem), "alg") if elem is not None else None
+            is_alg = (lambda y: y == alg) if alg is not None else (lambda y: isinstance(y, tuple) and len(y) == 3 and y[0] == "field" and y[2] == "alg")
+            for x in sub(t):
+                if (is_call(x, "slice::contains") or is_call(x, "Vec::contains")) and has_algs(x[2][0]) and has(x[2][1], is_alg):
+                    return True
+                if is_call(x, "Iterator::any") and has_algs(x[2][0]) and isinstance(x[2][1], tuple) and x[2][1][0] == "closure":
+                    r = closure_ret(p, x[2][1])
+                    e = flow.eq_test(r, ("notin", "0")) if r is not None else None
+                    if e is not None and e[1] is True and any(y == ("param", 2) for y in e[0]) and any(has(y, is_alg) for y in e[0]):
+                        return True
+            return False
         pred_ok = sel_ok = err_ok = False
         fnd = None
         for o in oks:
-            fnd = find(o.value, is_find)
+            for t, l, f, w in o.conds:
+                if flow.asserts_ok(t, l, is_elem):
+                    fnd = [x for x in flow._subjects(flow.presence_test(t, l)[0], False) if is_elem(x)][0]
         if fnd is not None:
-            pr = closure_ret(p, fnd[2][1])
-            pr = N.inline(pr) if pr is not None else None
-            pred_ok = pr is not None and find(pr, lambda x: is_call(x, "slice::contains") or is_call(x, "Vec::contains")) is not None and has(pr, lambda x: isinstance(x, tuple) and len(x) == 3 and x[0] == "field" and x[2] == "algs") and has(pr, lambda x: isinstance(x, tuple) and len(x) == 3 and x[0] == "field" and x[2] == "alg")
+            if is_find(fnd):
+                pr = closure_ret(p, fnd[2][1])
+                pr = N.inline(pr) if pr is not None else None
+                pred_ok = pr is not None and membership(pr, None)
+            else:
+                # loop form: the Ok row is taken on the true edge of the membership test of the yielded element
+                pred_ok = all(any(membership(N.inline(t), fnd) and flow.bool_atom(t, l)[1] is True for t, l, f, w in o.conds) for o in oks)
             sel_ok = all(dict(o.value[3]).get("0") == ("field", ("payload", fnd), "alg") and any(flow.asserts_ok(t, l, lambda x: x == fnd) for t, l, f, w in o.conds) for o in oks)
-            err_ok = bool(errs) and all(has(o.value, lambda x: isinstance(x, tuple) and len(x) == 4 and x[0] == "agg" and x[2] == "UnsupportedAlgorithm") and any(flow.asserts_fail(t, l, lambda x: x == fnd) for t, l, f, w in o.conds) for o in errs)
+            err_ok = bool(errs) and all(has(o.value, lambda x: isinstance(x, tuple) and len(x) == 4 and x[0] == "agg" and x[2] == "UnsupportedAlgorithm") and any(flow.asserts_fail(t, l, is_elem) for t, l, f, w in o.conds) for o in errs)
         chk.ob("R6 algorithm", "R6|choose_algorithm|forward-first-match", fnd is not None and not bad and pred_ok and sel_ok and err_ok, where(ca),
                "table: %s ; reversing adaptors: %s ; predicate = membership in self.algs: %s ; Ok = found.alg: %s ; Err(UnsupportedAlgorithm) iff nothing found: %s"
                % (["%s <= %s" % (flow.term_str(o.value)[:60], o.cond_strs()) for o in rws][:3], bad or "none", pred_ok, sel_ok, err_ok))
